@@ -15,14 +15,15 @@ CONSTANTS
   AllowInvalid = %(inv)s
   AddrClass = "%(addr)s"
   Idioms = %(idioms)s
+  Features <- %(feat)s
 INVARIANTS FramesNested %(emit)s
 CHECK_DEADLOCK FALSE
 """
 SIGS = [("P_ii", "R_i"), ("P_fd", "R_d"), ("P_v", "R_v"), ("P_0", "R_0"), ("P_ii", "R_li")]
 
 
-def cfg(target, p, r, ops, inv="FALSE", emit="EmitBody", addr="addr", idioms="TRUE"):
-    return CFG % dict(target=target, maxlen=target * 3, p=p, r=r, ops=ops, inv=inv, emit=emit, addr=addr, idioms=idioms)
+def cfg(target, p, r, ops, inv="FALSE", emit="EmitBody", addr="addr", idioms="TRUE", feat="AllFeatures"):
+    return CFG % dict(target=target, maxlen=target * 3, p=p, r=r, ops=ops, inv=inv, emit=emit, addr=addr, idioms=idioms, feat=feat)
 
 
 def generate(ctx, q, invalid=False):
@@ -95,4 +96,4 @@ def run(ctx):
     for it in items[:: max(1, len(items) // 3)][:2]:
         ctx.sample({"function": [i["op"] for i in it["bodies"][0]["code"]][:60]})
     ctx.assumptions += ["the other engine is the oracle (the property is an agreement statement); NaN payloads are compared as 'both NaN'; calls that "
-                        "exhaust the stack on either engine are not compared", "atomics, table and bulk-memory instructions are not in the generator's table yet"]
+                        "exhaust the stack on either engine are not compared", "atomics are not generated"]
